@@ -37,6 +37,8 @@ THEOREMS = {
         "Shroud.Lines.wl_column_one",
         "Shroud.Lines.wl_total",
         "Shroud.Lines.wl_empty_body_ok",
+        "Shroud.Lines.rendered_line_limit",
+        "Shroud.Lines.emitter_line_config",
     ]
 }
 
@@ -168,6 +170,61 @@ def oracle_wc(w, linelen, indent, spaces, cont, line):
     return None
 
 
+def expected_body(subline):
+    """The text a subline must contribute, from the documented directive table of write_lines:
+    '#' and ordinary lines are text; '@' literal: drop the '@' only; '^': drop the '^';
+    '+text[-]': drop the leading '+' and one trailing '-'; '[-]*text[+]': drop leading '-'s and one trailing '+'."""
+    if subline == "":
+        return ""
+    c = subline[0]
+    if c == "#":
+        return subline
+    if c in "@^":
+        return subline[1:]
+    if c == "+":
+        return subline[1:-1] if subline[-1] == "-" and len(subline) > 1 else subline[1:]
+    t = subline.lstrip("-")
+    return t[:-1] if t.endswith("+") else t
+
+
+def oracle_wl(w, linelen, indent, spaces, cont, items):
+    """Directives steer layout only: the emitted text, with whitespace, break hints and continuation
+    markers ignored, is exactly the documented body of every subline, in order."""
+    r = real_wl(w, linelen, indent, spaces, cont, items)
+    if r.startswith("crash"):
+        return "write_lines raised %s" % r[6:]
+    lines = common.decs(r.split(" ", 2)[2])
+    want = "".join(nows(expected_body(sub)) for it in items if not isinstance(it, int) for sub in it.split("\n"))
+    contws = nows(cont)
+    got = "".join(nows(l) for l in lines)
+    if contws == "":
+        return None if got == want else "emitted text %r is not the documented body %r" % (got, want)
+    # A broken line ends with the continuation marker; the text itself may contain the marker's
+    # characters, so try both readings of every non-final line (exists a reading => accepted).
+    ts = [nows(l) for l in lines]
+    memo = {}
+
+    def go(i, pos):
+        if i == len(ts):
+            return pos == len(want)
+        key = (i, pos)
+        if key in memo:
+            return memo[key]
+        t = ts[i]
+        res = False
+        if want.startswith(t, pos) and go(i + 1, pos + len(t)):
+            res = True
+        elif i + 1 < len(ts) and t.endswith(contws) and want.startswith(t[: len(t) - len(contws)], pos) \
+                and go(i + 1, pos + len(t) - len(contws)):
+            res = True
+        memo[key] = res
+        return res
+
+    if not go(0, 0):
+        return "no reading of the emitted lines %r gives the documented text %r" % (lines[:6], want[:60])
+    return None
+
+
 def gen_strings(alpha, maxlen):
     for n in range(1, maxlen + 1):
         for t in itertools.product(alpha, repeat=n):
@@ -184,6 +241,8 @@ def rand_line(r):
 
 def run(ctx):
     thorough = ctx.tier == "thorough"
+    from tools import extract_linecfg
+    ctx.note("linecfg", extract_linecfg.regenerate())
     ok = ctx.lean(MODULES, THEOREMS, extra_targets=("drv_lines",))
     drv = common.Driver("drv_lines")
     w = _mixin()
@@ -300,6 +359,21 @@ def run(ctx):
                 bad += 1
                 if bad > 5:
                     break
+    # write_lines directive oracle (documented directive table vs emitted text)
+    wbad = 0
+    for (ll, ind, sp, cont, items) in (wl_cases if (thorough or ctx.broken) else wl_cases[:: 2]):
+        if not all(c in WS for c in sp):
+            continue
+        why = oracle_wl(w, ll, ind, sp, cont, items)
+        ctx.count(1)
+        if why:
+            if ctx.fail("wl:" + why.split(":")[0].split(" %")[0][:40], why, {"linelen": ll, "indent": ind, "spaces": sp, "cont": cont, "items": items}):
+                wbad += 1
+                if wbad > 5:
+                    break
+    # emitter configuration: each language's files depend on its own line-length option only, and no
+    # non-comment Fortran line exceeds 132 columns
+    linecfg_oracle(ctx, r, thorough)
     # write_lines crash oracle: logical lines consisting only of directives
     for s in ["@", "+", "-", "+-", "--", "-+"]:
         res = real_wl(w, 72, 0, "    ", "&", [s])
@@ -311,6 +385,56 @@ def run(ctx):
         from tools import shroudrun
         over = shroudrun.long_fortran_lines(ctx)
         ctx.note("fortran_lines_over_132", over)
+
+
+def linecfg_oracle(ctx, r, thorough):
+    from tools import shroudrun
+    from tools.gen import libgen
+    work = common.scratch()
+    try:
+        for i in range(4 if thorough else 2):
+            lib = libgen.gen_lib(r, name="ll%d" % i, language="c++", wrap={"wrap_python": True, "wrap_lua": True})
+            # a function with a long argument list, so continuation lines are certain
+            lib.decls.append({"decl": "double accumulate_weighted_sum_of_values(" + ", ".join(
+                "double input_value_number_%d" % k for k in range(12)) + ")"})
+            trees = {}
+            for tag, (cl, fl) in {"base": (72, 72), "bigC": (400, 72), "bigF": (72, 120), "smallC": (40, 72)}.items():
+                lib.options.update(C_line_length=cl, F_line_length=fl)
+                d = common.scratch()
+                try:
+                    y = shroudrun.write_yaml(d, "ll.yaml", lib.yaml())
+                    cfg, exc, out = shroudrun.run_inproc([y], d)
+                    ctx.count(1)
+                    if exc is not None:
+                        ctx.fail("linecfg:exception", "Shroud failed with C_line_length=%d F_line_length=%d: %r" % (cl, fl, exc), {"yaml": lib.yaml()})
+                        continue
+                    trees[tag] = shroudrun.read_tree(d)
+                finally:
+                    common.rmtree(d)
+                ctx.nontrivial(("linecfg", i, tag))
+                for fn, data in trees[tag].items():
+                    if fn.endswith(".f"):
+                        for ln, line in enumerate(data.decode().split("\n"), 1):
+                            if len(line) > max(132, fl + 2) and not line.lstrip().startswith("!"):
+                                ctx.fail("linecfg:fortran-line-over-132:C%d:F%d" % (cl, fl),
+                                         "non-comment Fortran line of %d columns with C_line_length=%d F_line_length=%d (%s line %d)" % (
+                                             len(line), cl, fl, fn, ln), {"yaml": lib.yaml(), "file": fn, "line": ln})
+                                break
+            if "base" in trees:
+                def diff(a, b, pred):
+                    return sorted(f for f in set(a) | set(b) if pred(f) and a.get(f) != b.get(f))
+                isf = lambda f: f.endswith(".f")
+                isc = lambda f: f.endswith((".c", ".cpp", ".h", ".hpp"))
+                for tag, pred, what in (("bigC", isf, "Fortran files change with C_line_length"),
+                                        ("smallC", isf, "Fortran files change with C_line_length"),
+                                        ("bigF", isc, "C/C++/Python/Lua files change with F_line_length")):
+                    if tag in trees:
+                        dd = diff(trees["base"], trees[tag], pred)
+                        ctx.count(1)
+                        if dd:
+                            ctx.fail("linecfg:cross-dependence:%s" % tag, "%s: %s" % (what, dd[:4]), {"yaml": lib.yaml(), "files": dd[:8]})
+    finally:
+        common.rmtree(work)
 
 
 def replay(path):
